@@ -703,7 +703,7 @@ func checkRouterFailsOnlyWithoutOwner(c *Ctx, rule string) {
 			}
 			noEntry := false
 			for _, a := range atomsAt(b, 0) {
-				if !isNilConst(a.cmp.Y) || !isEntry(a.cmp.X) {
+				if a.cmp == nil || !isNilConst(a.cmp.Y) || !isEntry(a.cmp.X) {
 					continue
 				}
 				if (a.cmp.Op == token.EQL) == a.truth {
